@@ -569,6 +569,11 @@ func (m *Machine) callSSA(caller *frame, callpos token.Pos, fn *ssa.Function, ar
 		// dependency initialisers are not run eagerly: packages are initialised lazily (ensureInit)
 		return nil
 	}
+	if len(m.overrides) > 0 && fn.Parent() == nil {
+		if ov, ok := m.overrides[fn.String()]; ok {
+			return m.call(caller, callpos, ov, args)
+		}
+	}
 	if fn.Parent() == nil {
 		if ext := m.external(fn); ext != nil {
 			return ext(m, caller, fn, args)
